@@ -217,8 +217,10 @@ func (fr *Frame) modularCall(ins ssa.Instruction, fn *ssa.Function, fc *FuncCont
 	env := fx.calleeEnv(fn, args, bindings)
 	// preconditions
 	for i, c := range fc.Requires {
-		t := fx.evalIn(c.E, env, st, st, nil).v.t
-		fx.oblige("pre@call", fmt.Sprintf("%s/pre@call/%s/%d", fr.obName(), calleeName, i+1), c.Text, st, t, ins.Pos(), append(append([]string{}, fr.props()...), "C05"))
+		fx.s.goal(func() {
+			t := fx.evalIn(c.E, env, st, st, nil).v.t
+			fx.oblige("pre@call", fmt.Sprintf("%s/pre@call/%s/%d", fr.obName(), calleeName, i+1), c.Text, st, t, ins.Pos(), append(append([]string{}, fr.props()...), "C05"))
+		})
 	}
 	pre := st.clone()
 	// effects
@@ -239,6 +241,10 @@ func (fr *Frame) modularCall(ins ssa.Instruction, fn *ssa.Function, fc *FuncCont
 	}
 	fx.bindResults(env, fn, res)
 	fx.assumeMode = true
+	for _, c := range fc.TrustedEnsures {
+		fx.trusted["assumed postcondition of "+calleeName+" (not checked against its body): "+c.Text] = true
+		fx.s.assume(st.guard, fx.evalIn(c.E, env, st, pre, nil).v.t)
+	}
 	for _, c := range fc.Ensures {
 		t, ok := fx.tryEval(c.E, env, st, pre)
 		if !ok {
